@@ -542,8 +542,10 @@ pub fn run(args: &Args) -> Report {
         return rep;
     }
     let cs = committees(args.tier);
-    let outs = par_map(cs.len(), |i| {
-        let c = util::committee(args.seed, &cs[i]);
+    // committees in which only some validators are leader-eligible: eligibility must not influence any verdict
+    let mixed: Vec<(Vec<u64>, u32)> = vec![(vec![1, 1, 1, 1], 0b0001), (vec![2, 2, 1, 1], 0b0100), (vec![3, 1, 1], 0b110), (vec![1; 6], 0b000011), (vec![1, 2], 0b10)];
+    let outs = par_map(cs.len() + mixed.len(), |i| {
+        let c = if i < cs.len() { util::committee(args.seed, &cs[i]) } else { let (w, l) = &mixed[i - cs.len()]; util::committee_elig(args.seed, w, 0, 0, Default::default(), *l) };
         check_committee(&c, args.tier)
     });
     let (mut evals, mut acc, mut rej, mut distinct) = (0, 0, 0, 0);
@@ -569,6 +571,7 @@ pub fn run(args: &Args) -> Report {
         "rule": "per committee (all weight vectors over {1,2,3} up to the tier's size, plus unit committees): every signer subset assembled with the real incremental add() for CommitQC and TimeoutQC (2-3 vote-assignment patterns), every single corruption from the listed alphabet applied to every accepted and every boundary-rejected certificate, the LeaderProposal / ReplicaNewView / FinalBlock wrappers, refused add() calls (certificate must stay unchanged) and Signed::verify; each evaluation is a distinct (committee, certificate variant, verification context) triple whose expected verdict is computed by the harness's own predicate",
         "exhaustive": true,
         "committees": cs.len(),
+        "committees_with_mixed_leader_eligibility": mixed.len(),
         "verdicts_accept": acc,
         "verdicts_reject": rej,
         "samples": [
